@@ -181,7 +181,13 @@ func c01Run(env *core.Env, idx int) core.CaseResult {
 	}
 	res.Sample = map[string]interface{}{"kind": kind, "document": core.Abbrev(string(text), 400)}
 	wit := map[string]interface{}{"kind": kind, "input": json.RawMessage(text)}
-	out, _, stage, detail := roundTrip(kind, text)
+	// the decoder is handed the text as one of three producers would have written it (compact, pretty-printed, '$' escaped)
+	spelled := respell(text, idx%3)
+	res.Count(fmt.Sprintf("input-spelling.%d", idx%3), 1)
+	if idx%3 != 0 {
+		wit["input_as_given_to_the_decoder"] = string(spelled)
+	}
+	out, _, stage, detail := roundTrip(kind, spelled)
 	if stage != "" {
 		res.Violate(fmt.Sprintf("%s %s: %s", stage, kind, errClass(fmt.Errorf("%s", detail))), detail, wit)
 		return res
